@@ -59,7 +59,9 @@ def gen_module(rng, enz, up, down, tlen, blen, tries=60):
         b = rand_dna(rng, blen)
         s = module_seq(enz, up, down, t, b, rng=rng)
         if two_sites(enz, s):
-            return {"seq": s, "up": up, "down": down, "t": t, "frag": up + t}
+            f = len(enz["site"]) + enz["off"] + enz["ovh"]
+            return {"seq": s, "up": up, "down": down, "t": t, "frag": up + t,
+                    "flanks": [(0, f), (f + tlen, f + tlen + f)]}
     return None
 
 
@@ -69,8 +71,29 @@ def gen_vector(rng, enz, up, down, blen, plen, tries=60):
         p = rand_dna(rng, plen)
         s = vector_seq(enz, up, down, b, p, rng=rng)
         if two_sites(enz, s):
-            return {"seq": s, "up": up, "down": down, "body": b, "frag": up + b}
+            f = len(enz["site"]) + enz["off"] + enz["ovh"]
+            return {"seq": s, "up": up, "down": down, "body": b, "frag": up + b,
+                    "flanks": [(0, f), (f + plen, f + plen + f)]}
     return None
+
+
+def new_origin(s, j):
+    """the same circle read from position j"""
+    j %= len(s)
+    return s[j:] + s[:j]
+
+
+def pick_origin(rng, elem, p_flank=0.75):
+    """an origin placement: mostly inside (or at the edge of) the flanking structure"""
+    n = len(elem["seq"])
+    if rng.random() < p_flank:
+        a, b = rng.choice(elem["flanks"])
+        return rng.randrange(a, b + 2) % n
+    return rng.randrange(0, n)
+
+
+def reorigin(rng, elem, p_flank=0.75):
+    return new_origin(elem["seq"], pick_origin(rng, elem, p_flank))
 
 
 def distinct_overhangs(rng, enz, count, tries=200):
